@@ -290,3 +290,29 @@ def r01_tokline(chk, rule="R01-tokline"):
             if before and not (fid.endswith("handle_a2ml")):
                 chk.add(Finding(rule, "%s::%s::%s" % (rule, fid, kind), "%s builds the %s token before adding the token's own line breaks to the line counter: the token carries its start line, so everything after a multi-line %s moves down by its height on every load/save cycle" % (fid, kind, kind), b.where(ln)))
     chk.rule(rule, "line-counter updates for multi-line tokens paired with the construction of their token (A2ML text exempt: A2ml::parse fixes its end offset)", n, floor=3)
+
+
+def r01_hexfloat(chk, rule="R01-hexfloat"):
+    """get_float / get_double: a hex literal in a float position is read as an unsigned 64-bit integer and converted (every hex text
+    the integer reader accepts for a u64 field denotes the same value as a limit); it is not routed through a signed or narrower
+    integer read, which wraps or rejects the upper half of the range"""
+    prog = mir.prog()
+    n = 0
+    for fid, b in sorted(prog.bodies.items()):
+        fn = mir.strip_generics(fid)
+        if fn not in ("parser::ParserState::get_float", "parser::ParserState::get_double"):
+            continue
+        n += 1
+        radix = [(bi, t) for bi, t in b.calls() if mir.strip_generics((t.get("res") or "").lstrip("?")).endswith("from_str_radix")]
+        if not radix:
+            chk.add(Finding(rule, "%s::%s::noradix" % (rule, fn), "%s has no radix-16 parse of its own for hex literals (the value is obtained some other way, e.g. through an integer read of another width)" % fid, b.where()))
+        for bi, t in radix:
+            if "u64" not in json_callee(t):
+                chk.add(Finding(rule, "%s::%s::width" % (rule, fn), "%s parses hex literals with %s, not as an unsigned 64-bit value" % (fid, json_callee(t)), b.where(t["ln"])))
+            c = mir.const_int(t["args"][1]) if len(t["args"]) > 1 else None
+            if c != 16:
+                chk.add(Finding(rule, "%s::%s::radix" % (rule, fn), "%s parses hex literals with radix %s" % (fid, c), b.where(t["ln"])))
+        for bi, t in b.calls():
+            if mir.strip_generics((t.get("res") or "").lstrip("?")).endswith("ParserState::get_integer"):
+                chk.add(Finding(rule, "%s::%s::via-integer" % (rule, fn), "%s reads hex literals through get_integer::<%s>: values outside that integer type wrap or are rejected although they are valid for a float position" % (fid, t.get("ga") or "?"), b.where(t["ln"])))
+    chk.rule(rule, "float readers whose hex branch parses an unsigned 64-bit value", n, floor=2)
